@@ -399,12 +399,18 @@ def explore_dispatch(ctx, base, n):
         acq = w.mkacq("acq")
         (pathlib.Path(node.root) / "acq").mkdir(exist_ok=True)
         plan = []
-        for i, (wants, dmg) in enumerate([(wt, d) for wt in "YMN" for d in ("none", "flip", "delete")]):
+        for i, (wants, dmg) in enumerate([(wt, d) for wt in "YMN" for d in ("none", "flip", "delete", "directory")]):
             content = bytes((j * 13 + i) & 0xFF for j in range(rng.choice([1, 50, 40000])))
             f = w.mkfile(acq, f"c{i}", content)
-            disk = damaged(rng, content, dmg)
-            if disk is not None:
-                (pathlib.Path(node.root) / "acq" / f"c{i}").write_bytes(disk)
+            if dmg == "directory":
+                # something else sits at the copy's path: it exists and differs
+                (pathlib.Path(node.root) / "acq" / f"c{i}").mkdir()
+                (pathlib.Path(node.root) / "acq" / f"c{i}" / "inside").write_bytes(content)
+                disk = b"<directory>"
+            else:
+                disk = damaged(rng, content, dmg)
+                if disk is not None:
+                    (pathlib.Path(node.root) / "acq" / f"c{i}").write_bytes(disk)
             w.mkcopy(node, f, "M", wants, size_b=len(content))
             plan.append((f"c{i}", wants, dmg, "N" if disk is None else ("Y" if disk == content else "X")))
         queue = w.StepQueue.make()
